@@ -7,8 +7,10 @@ DESCRIPTION = {
              "framing + third-party codecs; the router announces RawSocket maximum lengths 2^9..2^24, the WebSocket side sets maxMessagePayloadSize).  Hypothesis draws a history: "
              "registered endpoints with behaviours {returns value / CallResult / None / something not serializable / a value whose serialized size is just below, at, above the "
              "limit; raises ApplicationError / a define()d class / an undefined exception / an exception with unserializable args; returns a pending result resolved or failed "
-             "later; emits 0-3 progress results first}, several concurrent INVOCATIONs (receive_progress on/off, caller details on/off, args/kwargs shapes), resolve/fail of pending "
-             "results, INTERRUPT at every point (pending, after completion, unknown id) and unrelated traffic.  Oracle: for every invocation id, while the transport is up, the bytes "
+             "later; a 'shielded' asynchronous endpoint that swallows cancellation and still returns a value (Deferred errback / coroutine catching CancelledError); "
+             "emits 0-3 progress results first}, several concurrent INVOCATIONs (receive_progress on/off, caller details on/off, args/kwargs shapes), resolve/fail of pending "
+             "results, INTERRUPT at every point (pending, after completion, unknown id, and in the *same read* as its INVOCATION so that no event-loop turn separates them) and unrelated "
+             "traffic.  Oracle: for every invocation id, while the transport is up, the bytes "
              "written to the router decode to exactly one terminal message with that id - a non-progress YIELD carrying the return value, or ERROR(INVOCATION,id,uri) with "
              "wamp.error.invalid_payload / payload_size_exceeded in the two send-failure cases - never zero, never two; progressive YIELDs only before it and only if "
              "receive_progress was set; the endpoint observed exactly the caller's args/kwargs plus CallDetails iff requested; no message exceeds the announced limit.  "
